@@ -18,6 +18,12 @@ flag, headers of the *same* trace with another span id / flag; give nodes an exp
 `trace_id` property; and hop to a *fresh thread* under a header formatted from
 `Traceparent::current()` and parsed back (what an outgoing request would carry).
 
+Spans also end through `complete_with` (`ok_lvl`/`err_lvl` on fns returning Ok and Err, `guard:` spans
+completed with `complete()` / `complete_with(..)`, `new_span!` guards dropped or completed with
+`complete_with`), and scripted PANICS unwind through chains of synchronous span fns,
+`Traceparent::push().call(..)` and `Frame::push(..).call(..)` up to a `catch_unwind`, after which
+the same thread carries on (next children, next roots).
+
 Oracle — a model of "the current traceparent" walked over the tree:
 
 * a span started while the current traceparent is valid (trace id and span id) is a child /
@@ -180,6 +186,11 @@ struct Oracle<'a> {
     /// span id (as observed in the node's body) -> (node, role, how it was reached)
     roles: HashMap<u64, (u32, Role, &'static str)>,
     found: Vec<(String, String)>,
+    /// program points that are never reached because a scripted panic unwinds past them
+    unwound: HashSet<(u32, Point)>,
+    n_panics_caught: u64,
+    n_ended_by_complete_with: u64,
+    n_ended_by_complete_with_unsampled: u64,
     /// indexes into `found` whose signature is reported without the runtime's name
     no_env_suffix: HashSet<usize>,
     // measurements
@@ -202,6 +213,16 @@ struct Oracle<'a> {
 fn kind(n: &Node) -> &'static str {
     match (&n.variant, n.is_async) {
         (Variant::Top, _) => "top",
+        (Variant::ResultAware { fail: false }, false) => "sync-result-ok",
+        (Variant::ResultAware { fail: true }, false) => "sync-result-err",
+        (Variant::ResultAware { fail: false }, true) => "async-result-ok",
+        (Variant::ResultAware { fail: true }, true) => "async-result-err",
+        (Variant::Guard(GuardEnd::Complete), false) => "sync-guard-complete",
+        (Variant::Guard(GuardEnd::Complete), true) => "async-guard-complete",
+        (Variant::Guard(GuardEnd::CompleteWith), false) => "sync-guard-complete_with",
+        (Variant::Guard(GuardEnd::CompleteWith), true) => "async-guard-complete_with",
+        (Variant::Manual { complete_with: false, .. }, _) => "new_span-dropped",
+        (Variant::Manual { complete_with: true, .. }, _) => "new_span-complete_with",
         (Variant::ExplicitTrace(_), false) => "sync-explicit-trace-id",
         (Variant::ExplicitTrace(_), true) => "async-explicit-trace-id",
         (_, false) => "sync",
@@ -238,6 +259,7 @@ fn via_name(v: &Via) -> &'static str {
         Via::Plain { .. } => "plain-frame",
         Via::Header { spec, .. } => header_kind(spec),
         Via::Remote => "remote",
+        Via::Catch => "catch",
     }
 }
 
@@ -273,6 +295,10 @@ impl<'a> Oracle<'a> {
             stray,
             roles: HashMap::new(),
             found: Vec::new(),
+            unwound: HashSet::new(),
+            n_panics_caught: 0,
+            n_ended_by_complete_with: 0,
+            n_ended_by_complete_with_unsampled: 0,
             no_env_suffix: HashSet::new(),
             n_tp_reads: 0,
             n_new_sampled: 0,
@@ -299,6 +325,15 @@ impl<'a> Oracle<'a> {
     /// (`exact`: including the other flag bits; otherwise trace id, span id and the sampled bit).
     fn expect_tp(&mut self, node: u32, point: Point, want: &Tp, exact: bool, sig: &str) {
         let v: Vec<&'a Obs> = self.obs.get(&(node, point)).cloned().unwrap_or_default();
+        if self.unwound.contains(&(node, point)) {
+            if !v.is_empty() {
+                self.bad(
+                    "interpreter:point-reached-although-a-panic-unwinds-past-it".into(),
+                    format!("node {} point {:?}", node, point),
+                );
+            }
+            return;
+        }
         if v.len() != 1 {
             self.bad(
                 format!("interpreter:point-read-{}-times", v.len().min(2)),
@@ -342,6 +377,12 @@ impl<'a> Oracle<'a> {
         let k = kind(node);
         let got = enter.tp.unwrap_or(Tp::EMPTY);
         let where_ = format!("{}:via={}", k, via);
+        if node.unwinds {
+            let last = (node.steps.len().max(1) - 1) as u16;
+            self.unwound.insert((node.id, Point::Exit));
+            self.unwound.insert((node.id, Point::After(last)));
+            self.unwound.insert((node.id, Point::ViaOut(last)));
+        }
         if matches!(node.variant, Variant::ExplicitTrace(_)) {
             self.n_explicit += 1;
         }
@@ -477,6 +518,17 @@ impl<'a> Oracle<'a> {
                     .map(|c| c.decision)
                     .unwrap_or(inside.sampled())
             };
+            let ends_by_complete_with = !node.unwinds
+                && matches!(
+                    node.variant,
+                    Variant::ResultAware { .. } | Variant::Guard(GuardEnd::CompleteWith) | Variant::Manual { complete_with: true, .. }
+                );
+            if ends_by_complete_with {
+                self.n_ended_by_complete_with += 1;
+                if !model_sampled {
+                    self.n_ended_by_complete_with_unsampled += 1;
+                }
+            }
             let want = if model_sampled { 1 } else { 0 };
             if evs.len() != want {
                 let why = if outer.valid() {
@@ -579,6 +631,7 @@ impl<'a> Oracle<'a> {
                     }
                     // unsampled trace without the sampled-trace filter: unconstrained
                 }
+                Step::Panic => {}
                 Step::Yield => {
                     if node.is_async {
                         self.expect_tp(node.id, Point::Resume(i), &inside, true, &restored("after-yield"));
@@ -681,7 +734,25 @@ impl<'a> Oracle<'a> {
                                 }
                             }
                         }
-                        Via::Props { .. } | Via::TraceOnly { .. } | Via::Plain { .. } => unreachable!("not generated for C18"),
+                        Via::Plain { .. } => {
+                            // `Frame::push(ctxt, plain props).call(..)` (on the way to a scripted panic)
+                            self.expect_tp(node.id, Point::ViaIn(i), &inside, true, "non-span-frame-changes-traceparent");
+                            self.expect_tp(node.id, Point::ViaOut(i), &inside, true, "traceparent-not-restored:after-child:inside-non-span-frame");
+                            inside
+                        }
+                        Via::Catch => {
+                            // the panic that unwinds through the spans / pushed headers / frames below is
+                            // caught here: after it (the `After` read below) everything must be as before
+                            match self.run.caught.iter().find(|(n, s, _)| *n == node.id && *s == i) {
+                                Some((_, _, true)) => self.n_panics_caught += 1,
+                                other => self.bad(
+                                    "interpreter:scripted-panic-not-caught".into(),
+                                    format!("node {} step {}: {:?}", node.id, i, other),
+                                ),
+                            }
+                            inside
+                        }
+                        Via::Props { .. } | Via::TraceOnly { .. } => unreachable!("not generated for C18"),
                     };
                     self.walk(child, &child_outer, vn);
                     self.expect_tp(
@@ -741,7 +812,16 @@ impl<'a> Oracle<'a> {
         }
         let stray = std::mem::take(&mut self.stray);
         for s in &stray {
-            left.push(format!("event without id/eid: {}", s.raw.to_json()));
+            if s.is_span {
+                // a span event without the `id` its frame pushes: the span was rejected (its frame is
+                // a disabled one) and completed all the same
+                self.bad(
+                    "span-event-from-a-rejected-span".into(),
+                    format!("a span event without its frame's props was emitted (trace_id={:?} span_id={:?}): {}", s.trace, s.span, s.raw.to_json()),
+                );
+            } else {
+                left.push(format!("event without eid: {}", s.raw.to_json()));
+            }
         }
         if !left.is_empty() {
             self.bad("unexplained-events".into(), left.join("; "));
@@ -807,6 +887,9 @@ fn eval<X: Env>(r: &mut Report, in_sampled: bool, seed: u64, index: u64, tree: &
         r.observe(&format!("pushed:{}", k), *v);
     }
     r.observe("remote-hops", o.n_remote);
+    r.observe("panics-unwound-and-caught", o.n_panics_caught);
+    r.observe("spans-ended-through-complete_with", o.n_ended_by_complete_with);
+    r.observe("spans-ended-through-complete_with-in-unsampled-trace", o.n_ended_by_complete_with_unsampled);
     r.observe("thread-handoffs", o.n_handoffs);
     r.observe("groups-actually-interleaved", o.n_groups_interleaved);
     r.observe("nodes-with-explicit-trace-id", o.n_explicit);
